@@ -553,8 +553,77 @@ def run_arity_mismatch(c: dict):
     return None, "returned"
 
 
+def store_kind_cases():
+    for kind in ("aggregate", "graph-subclass", "conjunctive"):
+        for entry in ("serialize", "grouped_to_file", "stream_frames"):
+            for fs in (1, 250):
+                yield {"entry": f"store-kind:{kind}:{entry}", "integration": "rdflib", "frame_size": fs, "arity": 3, "n": 5,
+                       "delimited": True, "logical": 1, "physical": 1, "flow": "inferred", "flow_logical": None, "collect": False}
+
+
+def run_store_kind(c: dict):
+    """rdflib graph-like inputs that are not a plain Graph over its own store context: a ReadOnlyGraphAggregate, a Graph
+    subclass that overrides triples(), a ConjunctiveGraph.  The call must raise, or every triple the object yields when iterated
+    must be in the bytes."""
+    import rdflib
+    from rdflib.graph import ReadOnlyGraphAggregate
+    _k, kind, entry = c["entry"].split(":")
+    stmts = inputs(3, 5)
+    native = [tuple(T.to_rdflib(t) for t in st) for st in stmts]
+    if kind == "aggregate":
+        g1, g2 = rdflib.Graph(), rdflib.Graph()
+        for t in native[:3]:
+            g1.add(t)
+        for t in native[3:]:
+            g2.add(t)
+        store = ReadOnlyGraphAggregate([g1, g2])
+    elif kind == "conjunctive":
+        store = rdflib.ConjunctiveGraph()
+        for k, t in enumerate(native):
+            store.get_context(rdflib.URIRef(f"http://ex.org/ctx{k % 2}")).add(t)
+    else:
+        class Computed(rdflib.Graph):
+            def triples(self, pattern):
+                yield from native
+        store = Computed()
+    want = {T.norm_stmt(s) for s in stmts}
+    out = io.BytesIO()
+    options = SerializerOptions(frame_size=c["frame_size"], logical_type=1, lookup_preset=LookupPreset.small())
+    try:
+        if entry == "serialize":
+            store.serialize(out, format="jelly", options=options)
+        elif entry == "grouped_to_file":
+            rser.grouped_stream_to_file((x for x in [store]), out, options=options)
+        else:
+            stream = pj.make_stream({"integration": "rdflib", "physical": 1}, options)
+            for fr in rser.stream_frames(stream, store):
+                write_delimited(fr, out)
+    except Exception:  # noqa: BLE001 - refusing is fine
+        return None, "raised"
+    data = out.getvalue()
+    try:
+        got = {T.norm_stmt(e[1]) for e in pj.parse("generic", "flat", data) if e[0] == "stmt"} if data else set()
+    except Exception as ex:  # noqa: BLE001
+        return {"clause": "bytes-do-not-parse", "cfg": c, "streams": [], "n_bytes": len(data),
+                "summary": f"{c['entry']}: returned normally, {len(data)} bytes written, they do not parse ({type(ex).__name__})"}, "returned"
+    if not want <= {x[:3] for x in got}:
+        return {"clause": "parse-differs", "cfg": c, "streams": [], "n_bytes": len(data),
+                "summary": f"{c['entry']}: the call returned normally but only {len(want & {x[:3] for x in got})} of the {len(want)} triples the "
+                           f"object yields are in the {len(data)} bytes written"}, "returned"
+    return None, "returned"
+
+
 def run_shard(ctx):
     monitors.stream_registry_on()
+    if ctx.shard == 4 % ctx.nshards:
+        for c in store_kind_cases():
+            w, outcome = run_store_kind(c)
+            ctx.observe("store-kind-inputs")
+            ctx.observe("configurations-accepted" if outcome == "returned" else "configurations-raised")
+            if w is not None:
+                ctx.violation(w)
+            ctx.case(tuple(sorted((k, str(v)) for k, v in c.items())), outcome == "returned",
+                     sample={"cfg": c, "kind": "rdflib graph-like input that is not a plain Graph", "outcome": outcome})
     if ctx.shard == 3 % ctx.nshards:
         # a slice of everything again in an interpreter started with -O: "must raise instead of writing" may not hinge on an assert
         from .. import childopt
@@ -655,6 +724,8 @@ def replay(w: dict):
         return run_short_write(c)[0]
     if str(c.get("entry", "")).startswith("arity-mismatch:"):
         return run_arity_mismatch(c)[0]
+    if str(c.get("entry", "")).startswith("store-kind:"):
+        return run_store_kind(c)[0]
     res = run_config(c)
     if res["outcome"] == "raised":
         return None
